@@ -369,7 +369,7 @@ def rule_refs(P):
     reference the deferred queue holds" cannot know whether the queue holds one (a pending flag stays set when the callbacks were cleared): the count goes negative and the finalizer
     runs twice or never."""
     r = Rule("C19-refs", "K2", "bufferevent_private.refcnt is initialised once, incremented in the incref functions and decremented only in bufferevent_decref_and_unlock_", floor=4)
-    OWN = {"bufferevent_init_common_": ("=",), "bufferevent_incref": ("++",), "bufferevent_incref_and_lock_": ("++",), "bufferevent_decref_and_unlock_": ("--",)}
+    OWN = {"bufferevent_init_common_": ("=",), "bufferevent_incref": ("++", "+="), "bufferevent_incref_and_lock_": ("++", "+="), "bufferevent_decref_and_unlock_": ("--", "-=")}
     for f in P.all_fns:
         if not f.file.startswith("bufferevent"):
             continue
